@@ -7,9 +7,12 @@ masks with constants) is therefore in a canonical form by construction.  Non-lin
 create hash-consed atoms:
 
   and   : AND of two (canonical) bits, operands sorted
-  sum   : bit i of a modular linear form  sum(coeff_k * operand_k) + const  (mod 2^w); nested sums
-          are flattened, equal operands merged, so + is associative/commutative and x+k-k = x
-  carry : the carry-out of a sum node
+  sb/cin: bits of integer linear forms  sum(coeff_k * operand_k) + const.  A form is a CARRY CHAIN: node i
+          stands for the integer L_i = contribution of all operand bits below position i; bit i of the
+          sum is parity(position i) xor bit i of L_i (atom cin(node i)).  Nodes are hash-consed per
+          position over the multiset of (operand bit, coefficient), so + is associative/commutative,
+          x+k-k = x, a sum and its truncation share their low bits, and a limb-wise addition with carry
+          has the same bits as the one wide addition
   ite   : if-then-else on a condition bit
   cmp   : comparison of two bit-vectors
   fn    : output bit of an uninterpreted function (modular mode: S-boxes, Threefish, ...)
@@ -33,12 +36,21 @@ _atom_index = {("one",): 0}  # payload -> id
 
 def reset():
     """Forget all atoms (start of an independent analysis)."""
-    global _atoms, _atom_index, _sum_nodes, _sum_index, _lin_view
+    global _atoms, _atom_index, _ch_nodes, _ch_index, _sum_index, _lin_view
     _atoms = [("one",)]
     _atom_index = {("one",): 0}
-    _sum_nodes = []
+    _ch_nodes = [(None, frozenset(), 0, 0, 0, 0)]
+    _ch_index = {}
     _sum_index = {}
     _lin_view = {}
+    global _lin_strip, _int_meaning
+    _lin_strip = {}
+    _int_meaning = {}
+    global _sum_nodes
+    _sum_nodes = []
+    global _sum_carry, _ent_cache
+    _sum_carry = {}
+    _ent_cache = {}
     global _fn_apps, _fn_app_list
     _fn_apps = {}
     _fn_app_list = []
@@ -317,9 +329,15 @@ def bswap(a):
 
 # ---------------------------------------------------------------- modular linear forms
 
-_sum_nodes = []   # id -> (w, frozenset((operand, coeff)), const)
-_sum_index = {}
+# Carry chains.  Node id -> (parent, entries, cbit, pos, lo, hi): the node at position `pos` denotes the
+# integer L_pos = L_parent + 2^(pos-1) * (sum(coeff*bit for (bit, coeff) in entries) + cbit); node 0 is the
+# empty sum at position 0.  lo/hi bound L_pos over all assignments.
+_ch_nodes = [(None, frozenset(), 0, 0, 0, 0)]
+_ch_index = {}
+_sum_index = {}   # (width, frozenset((operand, coeff)), const) -> bits
 _lin_view = {}    # bits of a lin() result -> (width, frozenset((operand, coeff)), const)
+_lin_strip = {}   # bits of a lin() result without their constant-zero top bits -> (key, end node)
+_int_meaning = {} # bit -> (cb, node, vnode): the bit's integer value is cb + carry(node) - carry(vnode)
 
 
 def _as_sum(bv):
@@ -328,6 +346,335 @@ def _as_sum(bv):
     if v is None:
         return None
     return v[1], v[2]
+
+
+def _ch_extend(parent, entries, cbit):
+    key = (parent, entries, cbit)
+    nid = _ch_index.get(key)
+    if nid is None:
+        p = _ch_nodes[parent]
+        pos = p[3]
+        neg = 0
+        posv = 0
+        for _, k in entries:
+            if k < 0:
+                neg += k
+            else:
+                posv += k
+        nid = len(_ch_nodes)
+        _ch_nodes.append((parent, entries, cbit, pos + 1, p[4] + ((neg + cbit) << pos), p[5] + ((posv + cbit) << pos)))
+        _ch_index[key] = nid
+    return nid
+
+
+def _cin_bit(nid):
+    """Bit `pos` of L(nid), the carry into position pos: a constant when the bounds decide it."""
+    n = _ch_nodes[nid]
+    pos, lo, hi = n[3], n[4], n[5]
+    if (lo >> pos) == (hi >> pos):
+        return ONE if (lo >> pos) & 1 else ZERO
+    return abit(("cin", nid))
+
+
+def _tight(nid):
+    """L(nid) < 2^(pos+1) and >= 0: the carry bit is the whole quotient L / 2^pos."""
+    n = _ch_nodes[nid]
+    return n[4] >= 0 and n[5] < (1 << (n[3] + 1))
+
+
+def _carry_operand(t):
+    """If the operand is zext(carry bit of a tight chain node) return that node id, else None."""
+    b = t[0]
+    if len(b) != 1:
+        return None
+    for x in t[1:]:
+        if x:
+            return None
+    (a,) = b
+    p = _atoms[a]
+    if p[0] == "cin" and _tight(p[1]):
+        return p[1]
+    return None
+
+
+def _strip(t):
+    n = len(t)
+    while n and not t[n - 1]:
+        n -= 1
+    return t[:n]
+
+
+def _single_cin(b):
+    """Node id if the bit is exactly one carry atom, else None."""
+    if len(b) != 1:
+        return None
+    (a,) = b
+    p = _atoms[a]
+    return p[1] if p[0] == "cin" else None
+
+
+_EMPTY = frozenset()
+_PREFIX_MARKS = frozenset((8, 16, 32, 64, 128))
+_sum_carry = {}   # key -> carry-out bit of the sum (bit `width` of the (width+1)-bit sum of the zero-extended operands)
+
+
+_ent_cache = {}   # key -> (entries per position before normalisation, constant): for incremental construction
+
+
+def _realise(width, acc, c, nowrap=False, carry=False, base=None):
+    """Deterministic bit representation of the canonical linear form (acc: operand->coeff, c).
+    nowrap: the caller knows that the integer sum of the ORIGINAL operands lies in [0, 2^width).
+    carry: also return bit `width` of the sum of the zero-extended operands (coefficients as given)."""
+    mask = (1 << width) - 1
+    half = 1 << (width - 1)
+    c &= mask
+    acc = {t: k & mask for t, k in acc.items() if k & mask}
+    if not carry:
+        if not acc:
+            return const(c, width)
+        if len(acc) == 1 and c == 0:
+            (t, k), = acc.items()
+            if k == 1:
+                return t
+    key = (width, frozenset(acc.items()), c)
+    hit = _sum_index.get(key)
+    if hit is not None and (not carry or key in _sum_carry):
+        return (hit, _sum_carry[key]) if carry else hit
+    total = width + 1 if carry else width
+    start = 0
+    items = acc.items()
+    ent = None
+    cached = _ent_cache.get(base) if (base is not None and not carry) else None
+    if cached is not None:
+        # incremental construction: the per-position entries of a recent sum plus/minus a few operands
+        # (long accumulations such as x0 += y over many rounds would otherwise cost operands x width each)
+        bacc = dict(base[1])
+        delta = []
+        for t, k in acc.items():
+            kb = bacc.pop(t, 0)
+            if k != kb:
+                delta.append((t, k, kb))
+        for t, kb in bacc.items():
+            delta.append((t, 0, kb))
+        if len(delta) <= 8:
+            ent0, cadd0 = cached
+            ent = [dict(d) if d else None for d in ent0]
+            cadd = cadd0 - base[2] + c
+            items = []
+            for t, k, kb in delta:
+                if k >= half and width > 1:
+                    k -= 1 << width
+                if kb >= half and width > 1:
+                    kb -= 1 << width
+                items.append((t, k - kb))
+    if ent is None:
+        ent = [None] * total
+        cadd = c
+        signed = True
+    else:
+        signed = False                          # the deltas are already signed
+    cpos = {}                                   # position -> constant contribution of operand bits that are 1
+    for t, k in items:
+        if signed and k >= half and width > 1 and not carry:
+            k -= 1 << width                     # signed representative: x - y has coefficient -1 at any width
+        p = -1
+        for b in t:
+            p += 1
+            if not b:
+                continue
+            if b == ONE:
+                cadd += k << p
+                cpos[p] = cpos.get(p, 0) + k
+                continue
+            kk = k
+            if ONE_ATOM in b:                   # complemented bit: !b = 1 - b
+                cadd += k << p
+                cpos[p] = cpos.get(p, 0) + k
+                b = b ^ ONE
+                kk = -k
+            d = ent[p]
+            if d is None:
+                ent[p] = {b: kk}
+            else:
+                d[b] = d.get(b, 0) + kk
+    if not carry and len(acc) >= 6:
+        _ent_cache[key] = ([dict(d) if d else None for d in ent], cadd)
+        if len(_ent_cache) > 96:
+            _ent_cache.pop(next(iter(_ent_cache)))
+    # the carry of another (tight) sum with weight one at position 0: continue that sum's chain, so that a
+    # limb-wise addition with carry has the bits of the one wide addition
+    d0 = ent[0]
+    if d0:
+        cands = []
+        for b, k in d0.items():
+            if k == 1:
+                n = _single_cin(b)
+                if n is not None and _tight(n):
+                    cands.append((n, b))
+        if len(cands) == 1:
+            start = cands[0][0]
+            del d0[cands[0][1]]
+    node = start
+    out = []
+    dropped = False
+    nodes = _ch_nodes
+    chindex = _ch_index
+    atoms = _atoms
+    aindex = _atom_index
+    crem = cadd           # constant still to be added at positions >= p (exact integer, in units of 2^p)
+    marks = []
+    crossed = set()         # prefix lengths across which an even weight was moved up (their carry is not in the chain)
+    for p in range(total):
+        if p in _PREFIX_MARKS and not start and not carry and cached is None and p not in crossed:
+            marks.append((p, node, crem))
+        if node:
+            # a carry-in that the bounds decide is a constant: fold it into the constant and restart the
+            # chain, so that bits which no lower operand bit can influence do not depend on them
+            n = nodes[node]
+            q = n[4] >> n[3]
+            if q == n[5] >> n[3]:
+                crem += q
+                node = 0
+        d = ent[p]
+        if d:
+            for k in d.values():
+                if k != 1:
+                    break
+            else:
+                k = 1
+            if k != 1:
+                for b, k in list(d.items()):
+                    if k == 0:
+                        del d[b]
+                    elif not (k & 1):
+                        # even weight: the same bit with an odd weight at a higher position
+                        m = (k & -k).bit_length() - 1
+                        del d[b]
+                        for pm in _PREFIX_MARKS:
+                            if p < pm <= p + m:
+                                crossed.add(pm)
+                        if p + m < total:
+                            d2 = ent[p + m]
+                            if d2 is None:
+                                ent[p + m] = {b: k >> m}
+                            else:
+                                d2[b] = d2.get(b, 0) + (k >> m)
+                        else:
+                            dropped = True          # weight 2^width or more: invisible mod 2^width
+        cb = crem & 1
+        crem >>= 1
+        par = ONE if cb else ZERO
+        if d:
+            if len(d) <= 3:
+                for b in d:
+                    par = par ^ b
+            else:
+                ps = set(par)
+                for b in d:
+                    ps ^= b
+                par = frozenset(ps)
+            fs = frozenset(d.items())
+        else:
+            fs = _EMPTY
+        if not node:
+            out.append(par)                     # no carry can arrive here
+            if d or cb:
+                node = _ch_extend(0, fs, cb)
+            continue
+        # the carry into this position is not a constant, or the chain would have restarted
+        if not d and not cb:
+            out.append(abit(("cin", node)))
+        else:
+            vn = None
+            if d and len(d) == 1:
+                (b1, k1), = d.items()
+                if k1 == -1:
+                    vn = _single_cin(b1)
+            if vn is not None:
+                # (carry of this chain) - (a carry bit): kept as an XOR of the two carries, so that a later
+                # sum can cancel it against the other carry (sequential limb increments = one wide addition)
+                bit = par ^ abit(("cin", node))
+                out.append(bit)
+                if nowrap and p == width - 1 and not carry and _tight(node):
+                    # integer value of the bit: cb + carry(node) - carry(vn), stored for the polarity without the constant
+                    if cb:
+                        _int_meaning.setdefault(bit ^ ONE, (-1, node, vn))     # value = carry(vn) - carry(node)
+                    else:
+                        _int_meaning.setdefault(bit, (1, node, vn))            # value = carry(node) - carry(vn)
+            else:
+                payload = ("sb", node, par)
+                ai = aindex.get(payload)
+                if ai is None:
+                    ai = len(atoms)
+                    atoms.append(payload)
+                    aindex[payload] = ai
+                out.append(frozenset((ai,)))
+        # node = _ch_extend(node, fs, cb), inlined
+        ckey = (node, fs, cb)
+        nid = chindex.get(ckey)
+        if nid is None:
+            pn = nodes[node]
+            pos = pn[3]
+            neg = 0
+            posv = 0
+            if d:
+                for k in d.values():
+                    if k < 0:
+                        neg += k
+                    else:
+                        posv += k
+            nid = len(nodes)
+            nodes.append((node, fs, cb, pos + 1, pn[4] + ((neg + cb) << pos), pn[5] + ((posv + cb) << pos)))
+            chindex[ckey] = nid
+        node = nid
+    cbit = None
+    if carry:
+        cbit = out.pop()
+        _sum_carry[key] = cbit
+        # state of the chain before the extra position is what a later zero extension needs; recompute cheaply
+    bits = tuple(out)
+    if carry and (not acc or (len(acc) == 1 and c == 0 and list(acc.values()) == [1])):
+        # trivial sums keep their trivial bits
+        bits = const(c, width) if not acc else list(acc)[0]
+        return bits, cbit
+    _sum_index[key] = bits
+    # several operand sets can have the same bits (cancellations happen bit-wise); the view used for
+    # flattening is the smallest of them, so that it does not depend on which one was built first
+    old = _lin_view.get(bits)
+    if old is None or (len(key[1]), key[2]) < (len(old[1]), old[2]):
+        _lin_view[bits] = key
+    if not start and not dropped and not carry:
+        _lin_strip.setdefault(_strip(bits), (key, node, crem))
+    for pm, nodem, cremm in marks:
+        # the low pm bits are themselves the sum of the truncated operands: register them, so that a value
+        # reassembled from the low words of this sum is recognised (wide counter arithmetic in several steps)
+        pre = bits[:pm]
+        sp = _strip(pre)
+        if len(sp) != pm or sp in _lin_strip:
+            continue
+        mk = (1 << pm) - 1
+        tacc = {}
+        for t, k in acc.items():
+            tt = t[:pm]
+            if any(tt) and k & mk:
+                tacc[tt] = (tacc.get(tt, 0) + k) & mk
+        if not (c & mk) and len(tacc) == 1 and list(tacc.values()) == [1]:
+            continue                    # the prefix is its operand: nothing to flatten
+        if any(tt == pre for tt in tacc):
+            continue
+        cadd_p = c & mk
+        for q, kq in cpos.items():
+            if q < pm:
+                cadd_p += kq << q
+        high = (cadd - cadd_p) >> pm
+        _lin_strip[sp] = ((pm, frozenset(tacc.items()), c & mk), nodem, cremm - high)
+    return (bits, cbit) if carry else bits
+
+
+# ---- opaque sums: the general case (several word operands, e.g. the additions of ARX rounds).  Bit i of such
+# a sum is one atom ("sum", id, i); the id is hash-consed on the flattened operand multiset, which keeps these
+# sums cheap.  Sums of ONE word operand with constants, flags and carries (counters) use the carry chains above.
+_sum_nodes = []   # id -> (w, frozenset((operand, coeff)), const)
 
 
 def _low_const_bits(t):
@@ -339,7 +686,7 @@ def _low_const_bits(t):
     return n
 
 
-def _realise(width, acc, c):
+def _realise_opaque(width, acc, c):
     """Deterministic bit representation of the canonical linear form (acc: operand->coeff, c)."""
     mask = (1 << width) - 1
     c &= mask
@@ -374,7 +721,7 @@ def _realise(width, acc, c):
                 low += k * (const_value(t[:kmin]) or 0)
                 u = t[kmin:]
                 upper[u] = upper.get(u, 0) + k
-            bits = const(low & ((1 << kmin) - 1), kmin) + _realise(width - kmin, upper, low >> kmin)
+            bits = const(low & ((1 << kmin) - 1), kmin) + _dispatch(width - kmin, upper, low >> kmin)
     if bits is None:
         sid = len(_sum_nodes)
         _sum_nodes.append(key)
@@ -384,31 +731,151 @@ def _realise(width, acc, c):
     return bits
 
 
+
+FLATTEN = 1000000
+
+
+def _opkey(t):
+    """Deterministic order on operands (for choosing which nested sum to flatten first)."""
+    for b in t:
+        if b:
+            return min(b), len(b)
+    return (0, 0)
+
+
+def _maxval(t):
+    v = 0
+    for p, b in enumerate(t):
+        if b:
+            v |= 1 << p
+    return v
+
+
 def lin(width, terms, c=0):
     """sum(coeff*operand) + c (mod 2^width); terms: iterable of (bv, coeff).  Operands that are
-    themselves results of lin() are flattened, so + is associative and commutative and equal
-    linear forms have identical bits."""
+    themselves results of lin() are flattened (also through a zero extension, when the narrower sum
+    cannot overflow by more than its carry bit), so + is associative and commutative and equal linear
+    forms have identical bits."""
     mask = (1 << width) - 1
+    half = 1 << (width - 1) if width > 1 else 2
     acc = {}
     c &= mask
     work = [(tuple(t), k & mask) for t, k in terms]
-    while work:
-        t, k = work.pop()
+    base = None
+    # does the integer sum of the operands as given stay inside [0, 2^width)?
+    bound = c
+    nowrap = True
+    base = None
+    for t, k in work:
+        if k >= half:
+            nowrap = False
+            break
+        bound += k * _maxval(t)
+        if bound > mask:
+            nowrap = False
+            break
+    # Operands that are sums themselves are flattened, smallest first, as long as the flattened form has
+    # at most FLATTEN operands: a long accumulation (x += y over many rounds) is then represented as
+    # (older prefix, kept opaque) + (the last few addends).  Within that window + is associative and
+    # commutative and x + y - y = x; the cost of a sum stays bounded.
+    pend = {}
+
+    def put(t, k):
+        nonlocal c
         if k == 0:
-            continue
+            return
         assert len(t) == width, (len(t), width)
         cv = const_value(t)
         if cv is not None:
             c = (c + k * cv) & mask
+            return
+        if t not in _lin_view or _lin_view[t][0] != width:
+            b0 = t[0]
+            if len(b0) > 1 and not any(t[1:]):
+                neg = ONE_ATOM in b0
+                m = _int_meaning.get(b0 ^ ONE if neg else b0)
+                if m is not None:
+                    # a bit known to be  +-(carry(node) - carry(vnode))  as an integer (or 1 minus that)
+                    sign, node, vn = m
+                    z = (ZERO,) * (width - 1)
+                    if neg:
+                        c = (c + k) & mask
+                        sign = -sign
+                    put((_cin_bit(node),) + z, (sign * k) & mask)
+                    put((_cin_bit(vn),) + z, (-sign * k) & mask)
+                    return
+            hit = _lin_strip.get(_strip(t))
+            if hit is not None:
+                (kw, terms2, c2), end, crem = hit
+                if kw < width and not any(t[kw:]) and _tight(end) and not any(t2 == t[:kw] for t2, _ in terms2):
+                    # zext of a narrower sum s:  nat(s) = L - 2^kw * (carry + constant overflow)
+                    c = (c + k * c2 - ((k * crem) << kw)) & mask
+                    pad = (ZERO,) * (width - kw)
+                    hw = 1 << (kw - 1)
+                    for (t2, k2) in terms2:
+                        if k2 >= hw and kw > 1:
+                            k2 -= 1 << kw           # the chain of s was built with the signed representative
+                        put(t2 + pad, (k * k2) & mask)
+                    q = _cin_bit(end)
+                    if q == ONE:
+                        c = (c - (k << kw)) & mask
+                    elif q:
+                        put((ZERO,) * kw + (q,) + (ZERO,) * (width - kw - 1), (-k) & mask)
+                    return
+        nk = (pend.get(t, 0) + k) & mask
+        if nk:
+            pend[t] = nk
+        else:
+            pend.pop(t, None)
+
+    for t, k in work:
+        put(t, k)
+    # Flatten tentatively (cancellations may shrink the form again) and keep the deepest flattening whose
+    # result has at most FLATTEN operands: S + y stays {S, y} when S is full, yet S - y_last still peels
+    chosen = (dict(pend), c)
+    while True:
+        best = None
+        for t in pend:
+            v = _lin_view.get(t)
+            if v is not None and v[0] == width:
+                cand = (len(v[1]), _opkey(t))
+                if best is None or cand < best[0]:
+                    best = (cand, t, v)
+        if best is None:
+            break
+        (size, _), t, v = best
+        if len(pend) - 1 + size > 2 * FLATTEN + 2:
+            break
+        k = pend.pop(t)
+        c = (c + k * v[2]) & mask
+        for (t2, k2) in v[1]:
+            put(t2, (k * k2) & mask)
+        if len(pend) <= FLATTEN:
+            chosen = (dict(pend), c)
+    acc, c = chosen
+    return _dispatch(width, acc, c, nowrap)
+
+
+def _dispatch(width, acc, c, nowrap=False):
+    """Counter-like forms (at most one word operand; the others are constants, flags, carries) are carry
+    chains; the general case is an opaque sum.  The choice depends on the flattened form only."""
+    big = 0
+    for t, k in acc.items():
+        if not k:
             continue
-        view = _lin_view.get(t)
-        if view is not None and view[0] == width:
-            c = (c + k * view[2]) & mask
-            for (t2, k2) in view[1]:
-                work.append((t2, (k * k2) & mask))
-            continue
-        acc[t] = (acc.get(t, 0) + k) & mask
-    return _realise(width, acc, c)
+        n = 0
+        for b in t:
+            if b and b != ONE:
+                n += 1
+                if n > 1:
+                    break
+        if n > 1:
+            big += 1
+            if big > 1:
+                break
+    if big > 1:
+        return _realise_opaque(width, acc, c)
+    return _realise(width, acc, c, nowrap)
 
 
 def add(a, b):
@@ -447,29 +914,16 @@ def _bvkey(a):
 
 
 def carry_add(a, b):
-    """Carry-out bit of a+b (unsigned overflow)."""
+    """Carry-out bit of a+b (unsigned overflow): bit w of the (w+1)-bit sum."""
     assert len(a) == len(b)
-    ca, cb = const_value(a), const_value(b)
     w = len(a)
-    if ca is not None and cb is not None:
-        return ONE if (ca + cb) >> w else ZERO
-    if ca == 0 or cb == 0:
-        return ZERO
-    # three-valued ripple: the carry-out is often decided by the constant bits alone
-    cy = 0          # 0, 1 or None (unknown)
-    for x, y in zip(a, b):
-        vx = 0 if not x else (1 if x == ONE else None)
-        vy = 0 if not y else (1 if y == ONE else None)
-        vals = (vx, vy, cy)
-        ones = sum(1 for v in vals if v == 1)
-        zeros = sum(1 for v in vals if v == 0)
-        cy = 1 if ones >= 2 else (0 if zeros >= 2 else None)
-    if cy is not None:
-        return ONE if cy else ZERO
-    ka, kb = _bvkey(a), _bvkey(b)
-    if kb < ka:
-        a, b = b, a
-    return abit(("carry", a, b))
+    return lin(w + 1, [(tuple(a) + (ZERO,), 1), (tuple(b) + (ZERO,), 1)])[w]
+
+
+def add_carry(a, b):
+    """(a + b mod 2^w, carry-out): both from one pass over the carry chain."""
+    s = add(a, b)
+    return s, carry_add(a, b)
 
 
 def borrow_sub(a, b):
@@ -514,6 +968,19 @@ def cmp_bit(op, a, b):
             return ZERO
         if w == 1:
             return band(a[0] ^ ONE, b[0])
+        # s = x + y (mod 2^w):  s < y  <=>  s < x  <=>  the addition carried out
+        v = _lin_view.get(tuple(a))
+        if v is not None and v[0] == w:
+            terms = dict(v[1])
+            c0 = v[2]
+            tb = tuple(b)
+            if c0 == 0 and len(terms) == 2 and tb in terms and all(k == 1 for k in terms.values()):
+                (x,) = [t for t in terms if t != tb]
+                return carry_add(x, tb)
+            if len(terms) == 1 and c0 and list(terms.values()) == [1]:
+                (x,) = terms
+                if cb == c0 or tb == x:
+                    return carry_add(x, const(c0, w))
     return abit(("cmp", op, a, b))
 
 
@@ -582,9 +1049,10 @@ class Evaluator:
                     break
         elif k == "sum":
             r = (self.sumval(p[1]) >> p[2]) & 1
-        elif k == "carry":
-            w = len(p[1])
-            r = (self.bv(p[1]) + self.bv(p[2])) >> w & 1
+        elif k == "cin":
+            r = (self.chval(p[1]) >> _ch_nodes[p[1]][3]) & 1
+        elif k == "sb":
+            r = ((self.chval(p[1]) >> _ch_nodes[p[1]][3]) & 1) ^ self.bit(p[2])
         elif k == "ite":
             r = self.bit(p[2]) if self.bit(p[1]) else self.bit(p[3])
         elif k == "mul":
@@ -617,14 +1085,35 @@ class Evaluator:
         return r
 
     def sumval(self, sid):
-        v = self.summemo.get(sid)
+        key = ("opaque", sid)
+        v = self.summemo.get(key)
         if v is None:
             w, terms, c = _sum_nodes[sid]
             v = c
             for t, k in terms:
                 v += k * self.bv(t)
             v &= (1 << w) - 1
-            self.summemo[sid] = v
+            self.summemo[key] = v
+        return v
+
+    def chval(self, nid):
+        """Integer L(nid) of a carry-chain node under the assignment."""
+        memo = self.summemo
+        stack = []
+        n = nid
+        while n and n not in memo:
+            stack.append(n)
+            n = _ch_nodes[n][0]
+        v = memo.get(n, 0)
+        while stack:
+            n = stack.pop()
+            _, entries, cb, pos, _, _ = _ch_nodes[n]
+            e = cb
+            for b, k in entries:
+                if self.bit(b):
+                    e += k
+            v = v + (e << (pos - 1))
+            memo[n] = v
         return v
 
 
@@ -659,11 +1148,20 @@ def support(bv, limit=2000000):
             for x in p[1]:
                 push_bit(x)
         elif k == "sum":
-            if p[1] not in seen_sums:
-                seen_sums.add(p[1])
+            if ("o", p[1]) not in seen_sums:
+                seen_sums.add(("o", p[1]))
                 for t, _ in _sum_nodes[p[1]][1]:
                     push_bv(t)
-        elif k in ("carry", "mul"):
+        elif k in ("cin", "sb"):
+            if k == "sb":
+                push_bit(p[2])
+            n = p[1]
+            while n and n not in seen_sums:
+                seen_sums.add(n)
+                for b, _ in _ch_nodes[n][1]:
+                    push_bit(b)
+                n = _ch_nodes[n][0]
+        elif k in ("mul",):
             push_bv(p[1]); push_bv(p[2])
         elif k == "ite":
             push_bit(p[1]); push_bit(p[2]); push_bit(p[3])
@@ -697,9 +1195,11 @@ def show_atom(a, depth=2):
         ops = sorted(p[1], key=_bitkey)
         return "(" + "&".join(show_bit(x, depth - 1) for x in ops[:6]) + ("&...%d" % len(ops) if len(ops) > 6 else "") + ")"
     if k == "sum":
-        return "%s[%d]" % (show_sum(p[1], depth - 1), p[2])
-    if k == "carry":
-        return "carry(%s,%s)" % (show_bv(p[1], depth - 1), show_bv(p[2], depth - 1))
+        return "%s[%d]" % (show_view(_sum_nodes[p[1]], depth - 1), p[2])
+    if k == "cin":
+        return "carry%d#%d" % (_ch_nodes[p[1]][3], p[1])
+    if k == "sb":
+        return "sum%d#%d" % (_ch_nodes[p[1]][3], p[1])
     if k == "ite":
         return "ite(%s,%s,%s)" % tuple(show_bit(x, depth - 1) for x in p[1:4])
     if k == "cmp":
@@ -709,10 +1209,6 @@ def show_atom(a, depth=2):
     if k == "mul":
         return "mul(..)[%d]" % p[3]
     return "#%d" % a
-
-
-def show_sum(sid, depth=1):
-    return show_view(_sum_nodes[sid], depth)
 
 
 def show_view(view, depth=1):
@@ -744,9 +1240,7 @@ def show_bv(bv, depth=1):
             if p[0] == "in":
                 names.append((p[1], p[2]))
                 continue
-            if p[0] == "sum":
-                names.append(("sum#%d" % p[1], p[2]))
-                continue
+
         names.append(None)
     if all(n is not None for n in names) and len(set(n[0] for n in names)) == 1:
         idx = [n[1] for n in names]
